@@ -31,8 +31,9 @@ Not decided: histories as such.
 from __future__ import annotations
 
 import ast
-from typing import Dict, List, Optional, Set, Tuple
+from typing import Dict, List, Optional, Sequence, Set, Tuple
 
+from engines import c04facts as cf4
 from engines import c0910facts as cf
 from engines import inline
 from engines import pyfacts as pf
@@ -54,8 +55,7 @@ META = dict(
 TBL = 'instances_free_cores_mcpu'
 COL = 'free_cores_mcpu'
 INST_STATES = ['pending', 'active', 'inactive', 'deleted']
-ALLOWED = {'sql:add_attempt': '-', 'sql:mark_job_complete': '+', 'sql:unschedule_job': '+', 'sql:deactivate_instance': 'reset',
-           'py:batch/batch/driver/instance.py::Instance.create.insert': 'init'}
+ALLOWED = {'sql:add_attempt': '-', 'sql:mark_job_complete': '+', 'sql:unschedule_job': '+', 'sql:deactivate_instance': 'reset'}
 
 
 def _free_core_writes(body) -> List[Tuple[N, tuple, N]]:
@@ -71,23 +71,90 @@ def _free_core_writes(body) -> List[Tuple[N, tuple, N]]:
     return out
 
 
-def _cores_vars(routine: N) -> Set[str]:
-    """variables holding jobs.cores_mcpu of (in_batch_id, in_job_id)."""
+def _cores_vars(routine: N, key: Optional[Tuple[str, str]] = None) -> Set[str]:
+    """variables holding jobs.cores_mcpu of the job row `key` = (X, Y) (`.. FROM jobs WHERE batch_id = X AND job_id = Y`); default key: the routine's
+    own (in_batch_id, in_job_id).  Variable names are not interpreted."""
+    key = key or ('in_batch_id', 'in_job_id')
     out = set()
     for st in sf.all_statements(routine.body):
-        if st.kind == 'select' and st.into and st.frm is not None and [t.lower() for t in sf.table_names(st.frm)] == ['jobs'] \
-                and sr.has_eq(st.where, 'batch_id', 'in_batch_id') and sr.has_eq(st.where, 'job_id', 'in_job_id'):
+        if st.kind == 'select' and st.into and st.frm is not None and [t.lower() for t in sf.table_names(st.frm)] == ['jobs'] and cf4.job_key(st.where) == key:
             for (c, _), v in zip(st.cols, st.into):
                 if c.kind == 'col' and c.parts[-1].lower() == 'cores_mcpu' and sr.is_var(v):
                     out.add(v.parts[0].lower())
     return out
 
 
-def _inst_states(guard, var: str) -> Set[str]:
+def _name_key(where: Optional[N]) -> Optional[str]:
+    """X when the conjuncts contain `name = X` (either order, optional qualifier), X a bare variable / parameter."""
+    for c in sf.conjuncts(where):
+        if c.kind == 'bin' and c.op == '=':
+            for a_, b_ in ((c.left, c.right), (c.right, c.left)):
+                if a_.kind == 'col' and a_.parts[-1].lower() == 'name' and sr.is_var(b_) and b_.parts[0].lower() != 'name':
+                    return b_.parts[0].lower()
+    return None
+
+
+def _inst_state_vars(routine: N) -> Dict[str, str]:
+    """variables bound to instances.state by `SELECT state INTO v FROM instances WHERE name = X` -> X."""
+    out: Dict[str, str] = {}
+    for st in sf.all_statements(routine.body):
+        if st.kind == 'select' and st.into and st.frm is not None and [t.lower() for t in sf.table_names(st.frm)] == ['instances'] and _name_key(st.where) is not None:
+            for (c, _), v in zip(st.cols, st.into):
+                if c.kind == 'col' and c.parts[-1].lower() == 'state' and sr.is_var(v):
+                    out[v.parts[0].lower()] = _name_key(st.where)
+    return out
+
+
+def _inst_states(guard, var) -> Set[str]:
+    """instance states for which the path condition may hold; `var`: the variable(s) holding instances.state."""
+    names = {var} if isinstance(var, str) else set(var)
     out = set()
     for s in INST_STATES:
-        if all(pol in may(c, lambda n: s if (n.kind == 'col' and n.parts[-1].lower() == var) else UNKNOWN) for c, pol in guard):
+        if all(pol in may(c, lambda n: s if (sr.is_var(n) and n.parts[0].lower() in names) else UNKNOWN) for c, pol in guard):
             out.add(s)
+    return out
+
+
+def _guard_vars(guard) -> Set[str]:
+    return {n.parts[0].lower() for c, _ in guard for n in c.walk() if sr.is_var(n)}
+
+
+def _clamped(v: N) -> bool:
+    return any(n.kind == 'func' and n.name.upper() in ('GREATEST', 'LEAST', 'IF', 'ABS') for n in v.walk()) or any(n.kind == 'case' for n in v.walk())
+
+
+def _prev_sibling(body: Sequence[N]) -> Dict[int, Optional[N]]:
+    """id(statement) -> the statement directly before it in its own block."""
+    out: Dict[int, Optional[N]] = {}
+
+    def rec(block: Sequence[N]) -> None:
+        prev = None
+        for st in block:
+            out[id(st)] = prev
+            prev = st
+            if st.kind == 'if':
+                for _, b in st.branches:
+                    rec(b)
+                if st.orelse is not None:
+                    rec(st.orelse)
+            elif st.kind in ('loop', 'while', 'block'):
+                rec(st.body)
+    rec(body)
+    return out
+
+
+def _rowcount_values(c: N) -> Optional[Set[int]]:
+    """For a condition built from ROW_COUNT() and integer literals only: the values v in {0, 1, 2} of ROW_COUNT() (INSERT .. ON DUPLICATE KEY UPDATE: 0 = duplicate
+    left as it was, 1 = new row, 2 = duplicate changed) for which it holds.  None when the condition mentions anything else."""
+    if not any(n.kind == 'func' and n.name.upper() == 'ROW_COUNT' for n in c.walk()):
+        return None
+    if any(n.kind in ('col', 'uvar', 'param', 'subq', 'exists', 'select') or (n.kind == 'func' and n.name.upper() != 'ROW_COUNT') for n in c.walk()):
+        return None
+    out = set()
+    for k in (0, 1, 2):
+        e = sf.subst(c, lambda n, k=k: N('lit', value=k) if (n.kind == 'func' and n.name.upper() == 'ROW_COUNT') else None)
+        if True in may(e, lambda n: UNKNOWN):
+            out.add(k)
     return out
 
 
@@ -245,6 +312,64 @@ def _hoist_test_calls(m: pf.Module, target: str, helpers: Set[str]) -> pf.Module
     return m2
 
 
+def _same_instance(fn: pf.FuncDef, recv: ast.expr, name_arg: ast.expr) -> Tuple[str, str]:
+    """Is the object `recv` (receiver of adjust_free_cores_in_memory) the instance whose name is passed to the procedure as `name_arg`?
+    ('same' | 'other' | 'unknown', explanation).  'other' needs positive evidence: the receiver is looked up under a different key, or the name
+    is taken from a different object.  Locals are followed through all their definitions (None definitions cannot be receivers)."""
+    want = pf.nsrc(pf.expand_locals(fn, name_arg))
+    params = {a.arg for a in fn.args.posonlyargs + fn.args.args + fn.args.kwonlyargs}
+
+    def src(e: ast.AST) -> str:
+        return pf.nsrc(pf.expand_locals(fn, e))
+
+    def owner_of_name() -> Optional[str]:
+        a = pf.expand_locals(fn, name_arg)
+        return pf.nsrc(a.value) if isinstance(a, ast.Attribute) and a.attr == 'name' else None
+
+    def val(e: ast.AST, depth: int) -> Tuple[str, str]:
+        if depth <= 0:
+            return 'unknown', f'`{pf.nsrc(e)}` is defined through too many locals'
+        if isinstance(e, ast.Constant) and e.value is None:
+            return 'same', ''
+        if isinstance(e, ast.IfExp):
+            parts = [val(e.body, depth), val(e.orelse, depth)]
+        elif isinstance(e, ast.BoolOp):
+            parts = [val(e.values[-1], depth)] if isinstance(e.op, ast.And) else [val(v, depth) for v in e.values]
+        elif isinstance(e, ast.Await):
+            return val(e.value, depth)
+        elif isinstance(e, ast.Call) and isinstance(e.func, ast.Attribute) and e.func.attr == 'get_instance' and len(e.args) == 1 and not e.keywords:
+            k = src(e.args[0])
+            return ('same', '') if k == want else ('other', f'which is looked up as get_instance({k}), not by `{want}`')
+        elif isinstance(e, ast.Subscript) and isinstance(e.value, ast.Attribute) and e.value.attr == 'name_instance':
+            k = src(e.slice)
+            return ('same', '') if k == want else ('other', f'which is looked up as name_instance[{k}], not by `{want}`')
+        elif isinstance(e, ast.Name):
+            own = owner_of_name()
+            if own is not None and own == e.id:
+                return 'same', ''
+            defs = pf.assignments(fn).get(e.id, [])
+            if e.id in params and len(defs) == 1:
+                if own is not None and own in params and len(pf.assignments(fn).get(own, [])) == 1:
+                    return 'other', f'a different parameter than `{own}`, whose name is passed'
+                return 'unknown', f'`{e.id}` is a parameter; its relation to `{want}` is not known'
+            if not defs:
+                return 'unknown', f'`{e.id}` has no definition in the function'
+            parts = [val(d, depth - 1) if isinstance(d, ast.expr) else ('unknown', f'`{e.id}` is bound by `{pf.nsrc(d)[:40]}`') for d in defs]
+        else:
+            own = owner_of_name()
+            if own is not None and pf.nsrc(e) == own:
+                return 'same', ''
+            return 'unknown', f'`{pf.nsrc(e)[:50]}` is not a recognised instance lookup'
+        for v_, w_ in parts:
+            if v_ == 'other':
+                return v_, w_
+        for v_, w_ in parts:
+            if v_ == 'unknown':
+                return v_, w_
+        return 'same', ''
+    return val(recv, 4)
+
+
 MIRROR_ATTR = '_free_cores_mcpu'
 INSTANCE_PY = 'batch/batch/driver/instance.py'
 
@@ -268,9 +393,13 @@ def _is_proc_delta(mod: pf.Module, fn: pf.FuncDef, call: ast.Call, procs: Set[st
     if len(call.args) != 1 or call.keywords:
         return False
     a = pf.expand_locals(fn, call.args[0])
-    if not (isinstance(a, ast.Subscript) and isinstance(a.value, ast.Name) and pf.const_str(a.slice) == 'delta_cores_mcpu'):
+    if isinstance(a, ast.Call) and isinstance(a.func, ast.Attribute) and a.func.attr == 'get' and isinstance(a.func.value, ast.Name) and a.args and not a.keywords \
+            and pf.const_str(a.args[0]) == 'delta_cores_mcpu' and (len(a.args) == 1 or (len(a.args) == 2 and isinstance(a.args[1], ast.Constant) and a.args[1].value in (0, None))):
+        rv = a.func.value.id
+    elif isinstance(a, ast.Subscript) and isinstance(a.value, ast.Name) and pf.const_str(a.slice) == 'delta_cores_mcpu':
+        rv = a.value.id
+    else:
         return False
-    rv = a.value.id
     if rv in _delta_result_names(mod, fn, procs):
         return True
     params = [x.arg for x in fn.args.args]
@@ -309,15 +438,27 @@ def r8(ctx: Ctx, jobm: pf.Module, poolm: pf.Module, neg: list, pos: list, procs_
             fn = mod.enclosing_func(node)
             q = mod.qualname(fn) if fn is not None else '<module>'
             cons = f'{rel}::{q}::{MIRROR_ATTR} {"+=" if isinstance(node, ast.AugAssign) else "="} {pf.nsrc(node.value) if node.value is not None else ""}'
-            if rel == INSTANCE_PY and q == 'Instance.__init__' and isinstance(node, ast.Assign):
-                ok = pf.nsrc(tgt.value) == 'self' and isinstance(node.value, ast.Name) and node.value.id in [a.arg for a in fn.args.args]
+            me = fn.args.args[0].arg if fn is not None and fn.args.args else 'self'
+            own_params = [a.arg for a in fn.args.posonlyargs + fn.args.args + fn.args.kwonlyargs][1:] if fn is not None else []
+            val = pf.expand_locals(fn, node.value) if fn is not None and node.value is not None else node.value
+            on_self = pf.nsrc(tgt.value) == me
+            if rel == INSTANCE_PY and q == 'Instance.__init__' and isinstance(node, (ast.Assign, ast.AnnAssign)):
+                ok = on_self and isinstance(val, ast.Name) and val.id in own_params and len(pf.assignments(fn).get(val.id, [])) == 1
                 ctx.check(ok, 'R8', cons, 'a new in-memory instance does not start from the recorded free cores passed to the constructor', mod.path, node.lineno)
-            elif rel == INSTANCE_PY and q == 'Instance.deactivate' and isinstance(node, ast.Assign):
-                g = pf.cfg(fn)
-                ok = pf.nsrc(node.value) == 'self.cores_mcpu' and pf.nsrc(tgt.value) == 'self'
+            elif rel == INSTANCE_PY and q == 'Instance.deactivate' and isinstance(node, (ast.Assign, ast.AnnAssign)):
+                ok = on_self and isinstance(val, ast.Attribute) and pf.nsrc(val.value) == me and val.attr in ('cores_mcpu', '_cores_mcpu')
                 ctx.check(ok, 'R8', cons, 'deactivation does not set the in-memory free cores to the instance\'s total cores', mod.path, node.lineno)
-            elif rel == INSTANCE_PY and q == 'Instance.adjust_free_cores_in_memory' and isinstance(node, ast.AugAssign):
-                ok = isinstance(node.op, ast.Add) and isinstance(node.value, ast.Name) and node.value.id in [a.arg for a in fn.args.args] and pf.nsrc(tgt.value) == 'self'
+            elif rel == INSTANCE_PY and q == 'Instance.adjust_free_cores_in_memory' and isinstance(node, (ast.AugAssign, ast.Assign)):
+                if isinstance(node, ast.Assign):
+                    # x = x + d  is the augmented assignment spelled out
+                    v0 = node.value
+                    mine = pf.nsrc(tgt)
+                    add = isinstance(v0, ast.BinOp) and isinstance(v0.op, ast.Add) and mine in (pf.nsrc(v0.left), pf.nsrc(v0.right))
+                    amount = (v0.right if pf.nsrc(v0.left) == mine else v0.left) if add else None
+                else:
+                    add, amount = isinstance(node.op, ast.Add), node.value
+                amount = pf.expand_locals(fn, amount) if amount is not None else None
+                ok = add and isinstance(amount, ast.Name) and amount.id in own_params and on_self
                 ctx.check(ok, 'R8', cons, 'adjust_free_cores_in_memory does not add its argument to the in-memory free cores', mod.path, node.lineno)
             else:
                 ctx.bad('R8', cons, f'{q} changes the in-memory free cores directly; the only mirrored events are construction, deactivation and adjust_free_cores_in_memory(delta)', mod.path, node.lineno)
@@ -338,8 +479,9 @@ def r8(ctx: Ctx, jobm: pf.Module, poolm: pf.Module, neg: list, pos: list, procs_
     # deactivation mirrors the reset: every normal completion of Instance.deactivate that reaches the state change also resets the cores
     fn = im.func('Instance.deactivate')
     g = pf.cfg(fn)
-    st_nodes = g.find(lambda n: isinstance(n.ast, ast.Assign) and pf.nsrc(n.ast.targets[0]) == 'self._state' and pf.nsrc(n.ast.value) == "'inactive'")
-    rs_nodes = g.find(lambda n: isinstance(n.ast, ast.Assign) and pf.nsrc(n.ast.targets[0]) == f'self.{MIRROR_ATTR}' and pf.nsrc(n.ast.value) == 'self.cores_mcpu')
+    me = fn.args.args[0].arg if fn.args.args else 'self'
+    st_nodes = g.find(lambda n: isinstance(n.ast, ast.Assign) and pf.nsrc(n.ast.targets[0]) == f'{me}._state' and pf.const_str(pf.expand_locals(fn, n.ast.value)) == 'inactive')
+    rs_nodes = g.find(lambda n: isinstance(n.ast, ast.Assign) and pf.nsrc(n.ast.targets[0]) == f'{me}.{MIRROR_ATTR}' and pf.nsrc(pf.expand_locals(fn, n.ast.value)) in (f'{me}.cores_mcpu', f'{me}._cores_mcpu'))
     ctx.need(st_nodes, 'Instance.deactivate: `self._state = \'inactive\'` not found')
     ok = bool(rs_nodes) and all(g.path_avoiding(sn, lambda n: n is g.exit, lambda n: n in rs_nodes, edge_ok=lambda a, b, lab: lab != 'exc') is None
                                 or any(g.dominated_by(sn, lambda n, r_=r_: n is r_) for r_ in rs_nodes) for sn in st_nodes)
@@ -350,12 +492,22 @@ def r8(ctx: Ctx, jobm: pf.Module, poolm: pf.Module, neg: list, pos: list, procs_
     pnames = [a.arg for a in init.args.args][1:]
     ctx.need('free_cores_mcpu' in pnames and 'cores_mcpu' in pnames, 'Instance.__init__: parameters cores_mcpu / free_cores_mcpu not found')
     fi, ci = pnames.index('free_cores_mcpu'), pnames.index('cores_mcpu')
-    for q, want in (('Instance.from_record', lambda a, c: pf.nsrc(a) == "record['free_cores_mcpu']"), ('Instance.create', lambda a, c: pf.nsrc(a) == pf.nsrc(c))):
+    def _from_row(f2: pf.FuncDef, x: ast.AST, col: str) -> bool:
+        ps_ = {a_.arg for a_ in f2.args.posonlyargs + f2.args.args + f2.args.kwonlyargs}
+        return isinstance(x, ast.Subscript) and isinstance(x.value, ast.Name) and x.value.id in ps_ and pf.const_str(x.slice) == col
+
+    def _ctor_arg(call_: ast.Call, idx: int, name: str) -> Optional[ast.expr]:
+        if idx < len(call_.args) and not any(isinstance(a_, ast.Starred) for a_ in call_.args[: idx + 1]):
+            return call_.args[idx]
+        return next((k.value for k in call_.keywords if k.arg == name), None)
+    for q, want in (('Instance.from_record', lambda f2, a, c: _from_row(f2, a, 'free_cores_mcpu')), ('Instance.create', lambda f2, a, c: pf.nsrc(a) == pf.nsrc(c))):
         f2 = im.func(q)
-        calls = [c for c in ast.walk(f2) if isinstance(c, ast.Call) and pf.dotted(c.func) == 'Instance']
-        ctx.need(len(calls) == 1 and len(calls[0].args) > max(fi, ci) and not calls[0].keywords, f'{q}: constructor call not recognised')
-        a, c = calls[0].args[fi], calls[0].args[ci]
-        ctx.check(want(a, c), 'R8', f'{INSTANCE_PY}::{q}::initial in-memory free cores', f'{q} builds the in-memory instance with free cores `{pf.nsrc(a)}` (total `{pf.nsrc(c)}`): '
+        calls = [c for c in ast.walk(f2) if isinstance(c, ast.Call) and pf.dotted(c.func) in ('Instance', 'cls')]
+        ctx.need(len(calls) == 1, f'{q}: constructor call not recognised')
+        a, c = _ctor_arg(calls[0], fi, 'free_cores_mcpu'), _ctor_arg(calls[0], ci, 'cores_mcpu')
+        ctx.need(a is not None and c is not None, f'{q}: constructor arguments for cores_mcpu / free_cores_mcpu not found')
+        a, c = pf.expand_locals(f2, a), pf.expand_locals(f2, c)
+        ctx.check(want(f2, a, c), 'R8', f'{INSTANCE_PY}::{q}::initial in-memory free cores', f'{q} builds the in-memory instance with free cores `{pf.nsrc(a)}` (total `{pf.nsrc(c)}`): '
                   + ('a loaded instance does not start from the recorded counter' if 'record' in q else 'a new instance does not start with all cores free'), im.path, calls[0].lineno)
 
 
@@ -405,7 +557,7 @@ def r9(ctx: Ctx, prog: sf.SqlProgram, m: pf.Module, procs_with_delta: Set[str]) 
         cs = []
         for c in ast.walk(fn):
             if isinstance(c, ast.Call) and isinstance(c.func, ast.Attribute) and c.func.attr in sf.EXEC_METHODS and c.args:
-                sql = (pf.const_str(c.args[0]) or '').strip()
+                sql = (sf._sql_of_expr(fn, c.args[0])[0] or '').strip()   # literal, or a local / f-string holding the SQL
                 if sql.upper().startswith('CALL ') and sql[5:].split('(')[0].strip() in procs_with_delta:
                     cs.append(c)
         ctx.need(len(cs) == 1, f'{JOB_PY}::schedule_job: expected exactly one CALL of a procedure returning delta_cores_mcpu, found {len(cs)}')
@@ -470,7 +622,7 @@ def r9(ctx: Ctx, prog: sf.SqlProgram, m: pf.Module, procs_with_delta: Set[str]) 
 
     raises = [n for n in g.nodes if n.id in after and n.kind == 'raise' and escapes(n, set())]
     cons = f'{JOB_PY}::schedule_job'
-    proc = (pf.const_str(_the_call(mod2, fn).args[0]) or '').strip()[5:].split('(')[0].strip()
+    proc = (sf._sql_of_expr(fn, _the_call(mod2, fn).args[0])[0] or '').strip()[5:].split('(')[0].strip()
     # what the procedure has done when it answers: the attempt is recorded (CALL add_attempt) on EVERY path, whatever rc it then reports
     acq = [(st, guard) for st, guard in sf.guarded_statements(prog.routine(proc).ast.body) if st.kind == 'call' and st.name.lower() == 'add_attempt']
     ctx.need(acq, f'sql::{proc}: CALL add_attempt not found')
@@ -556,24 +708,32 @@ def run(ctx: Ctx) -> None:
                 w = [t for t, _ in sf.written_tables(st) if t.lower() == TBL]
                 setcol = st.kind == 'update' and any(c.kind == 'col' and c.parts[-1].lower() == COL for c, _ in st.sets)
                 if w or setcol:
-                    wid = f'py:{rel}::{e.qual}'
-                    ok = wid in ALLOWED
+                    # the only Python writer is the creation of the row (a plain INSERT next to the INSERT of the instance itself, inside Instance.create or a
+                    # helper nested in / extracted from it - the name of that helper is not interpreted); anything else is a direct write
+                    scope_fns = {e.fn}
+                    cur_ = e.fn
+                    while cur_ is not None:
+                        cur_ = m.enclosing_func(cur_)
+                        scope_fns.add(cur_)
+                    companions = [e2 for e2 in sf.embedded_in(m) if e2.sql_text and not e2.parse_error and len(e2.stmts()) == 1 and e2.stmts()[0].kind == 'insert'
+                                  and e2.stmts()[0].table.lower() == 'instances' and (e2.fn in scope_fns or (e2.fn is not None and m.enclosing_func(e2.fn) in scope_fns - {None}))]
+                    ok = st.kind == 'insert' and rel == INSTANCE_PY and bool(companions)
                     if ok:
                         # creation insert: free = the same value as instances.cores_mcpu
                         ins, _, _ = sr.insert_colmap(st)
                         elts = sr.args_tuple(e.fn, e.call.args[1])
                         params = sr.params_in_order(st)
-                        bind = {id(p): pf.nsrc(x) for p, x in zip(params, elts or [])}
+                        bind = {id(p): pf.nsrc(pf.expand_locals(e.fn, x)) for p, x in zip(params, elts or [])}
                         free_arg = bind.get(id(ins.get(COL)))
                         cores_arg = None
-                        for e2 in sf.embedded_in(m):
-                            if e2.fn is e.fn and e2.sql_text and 'INSERT INTO instances ' in e2.sql_text:
-                                st2 = e2.stmts()[0]
-                                ins2, _, _ = sr.insert_colmap(st2)
-                                el2 = sr.args_tuple(e2.fn, e2.call.args[1])
-                                b2 = {id(p): pf.nsrc(x) for p, x in zip(sr.params_in_order(st2), el2 or [])}
-                                cores_arg = b2.get(id(ins2.get('cores_mcpu')))
-                        ctx.check(free_arg is not None and free_arg == cores_arg and not st.on_dup, 'R1', f'{rel}::{e.qual}::initial {COL}',
+                        for e2 in companions:
+                            st2 = e2.stmts()[0]
+                            ins2, _, _ = sr.insert_colmap(st2)
+                            el2 = sr.args_tuple(e2.fn, e2.call.args[1])
+                            b2 = {id(p): pf.nsrc(pf.expand_locals(e2.fn, x)) for p, x in zip(sr.params_in_order(st2), el2 or [])}
+                            cores_arg = b2.get(id(ins2.get('cores_mcpu')))
+                        ctx.need(free_arg is not None and cores_arg is not None, f'{rel}::{e.qual}: cannot bind the values inserted as instances.cores_mcpu / {COL}')
+                        ctx.check(free_arg == cores_arg and not st.on_dup, 'R1', f'{rel}::instance creation::initial {COL}',
                                   f'a new instance starts with free cores `{free_arg}` but total cores `{cores_arg}`', m.path, e.lineno)
                     else:
                         ctx.bad('R1', f'{rel}::{e.qual}::writes {COL}', f'Python code writes {COL} directly: {text(st)[:100]}', m.path, e.lineno)
@@ -584,93 +744,167 @@ def run(ctx: Ctx) -> None:
     # ---- R2 acquire ---------------------------------------------------------------------------
     r = prog.routine('add_attempt')
     a = r.ast
+    rl = cf4.RoutineLocals(a)
     ws = writes.get('add_attempt', [])
     ctx.need(len(ws) == 1, 'add_attempt: expected exactly one write of free_cores_mcpu')
-    st, guard, v = ws[0]
+    st, guard0, v = ws[0]
+    guard = rl.expand_guard(guard0)
+    aparams = [p_[1].lower() for p_ in a.params]
+    in_params = {p_[1].lower() for p_ in a.params if (p_[0] or 'IN').upper() == 'IN'}
     cons = f'{r.file}::add_attempt::{text(st)[:70]}'
-    ctx.check(text(v).lower() == f'({COL} - in_cores_mcpu)', 'R2', cons + '::amount', f'acquire writes `{text(v)}`, expected free_cores_mcpu - in_cores_mcpu', r.file, r.line_of(st))
-    ctx.check(sr.has_eq(st.where, 'name', 'in_instance_name'), 'R2', cons + '::key', f'acquire is not keyed by the attempt\'s instance: WHERE {text(st.where)}', r.file, r.line_of(st))
-    rc = [c for c, pol in guard if pol and text(c).upper() == '(ROW_COUNT() = 1)']
-    ctx.check(bool(rc), 'R2', cons + '::once', f'the decrement is not guarded by ROW_COUNT() = 1 (path condition {[text(c) for c, _ in guard]}): a repeated schedule/start/complete '
-              'report for the same attempt would take the cores again', r.file, r.line_of(st))
-    # the statement directly before the IF ROW_COUNT() is the idempotent insert
-    flat = list(sf.all_statements(a.body))
-    ifs = [s for s in flat if s.kind == 'if' and any(text(c).upper() == '(ROW_COUNT() = 1)' for c, _ in s.branches)]
+    d = sr.dup_increment(COL, v, {})
+    if d is None:
+        ctx.need(_clamped(v), f'add_attempt: free_cores_mcpu is set to `{text(v)}`, which is not recognised as free_cores_mcpu -/+ <amount>')
+        ctx.bad('R2', cons + '::amount', f'acquire writes `{text(v)}` (a clamped / conditional value), expected free_cores_mcpu - <cores of the job>: a clamp hides an oversubscription that the release '
+                'later turns into free > total - live', r.file, r.line_of(st))
+        amount_param = None
+    else:
+        sign, amt = d
+        amount_param = amt.parts[0].lower() if sr.is_var(amt) and amt.parts[0].lower() in in_params else None
+        ctx.need(amount_param is not None or amt.kind == 'lit' or sr.is_var(amt), f'add_attempt: the amount `{text(amt)}` taken from free_cores_mcpu is not a parameter')
+        ctx.check(sign == -1 and amount_param is not None, 'R2', cons + '::amount', f'acquire writes `{text(v)}`, expected free_cores_mcpu - <the cores parameter>', r.file, r.line_of(st))
+    inst_param = _name_key(st.where)
+    ctx.check(inst_param is not None and inst_param in in_params, 'R2', cons + '::key', f'acquire is not keyed by the attempt\'s instance: WHERE {text(st.where)}', r.file, r.line_of(st))
+    # once: the decrement runs only when the idempotent INSERT of the attempt row really inserted (ROW_COUNT() = 1 evaluated directly after it, in the IF or in a local)
+    prev = _prev_sibling(a.body)
+    rc_sources: List[Tuple[N, Set[int]]] = []
+    for c, pol in guard0:
+        if not pol:
+            continue
+        owner = rl.cond_owner.get(id(c))
+        for x in sf.conjuncts(c):
+            vals_ = _rowcount_values(x)
+            if vals_ is not None and owner is not None:
+                rc_sources.append((owner, vals_))
+            elif sr.is_var(x) or (x.kind == 'bin' and x.op in ('=', '<=>') and (sr.is_var(x.left) or sr.is_var(x.right))):
+                # a local holding the test / the count:  SET is_new = ROW_COUNT() = 1; IF is_new  |  SET n = ROW_COUNT(); IF n = 1
+                var_ = x if sr.is_var(x) else (x.left if sr.is_var(x.left) else x.right)
+                asg = rl.assigns.get(var_.parts[0].lower(), [])
+                if len(asg) == 1 and asg[0][1].kind == 'set' and asg[0][2] is not None:
+                    rhs = asg[0][2]
+                    full = rhs if sr.is_var(x) else sf.subst(x, lambda n, rhs=rhs, var_=var_: rhs if (sr.is_var(n) and n.parts[0].lower() == var_.parts[0].lower()) else None)
+                    vals_ = _rowcount_values(full)
+                    if vals_ is not None:
+                        rc_sources.append((asg[0][1], vals_))
+    once = [src for src, vals_ in rc_sources if vals_ == {1}]
+    loose = [(src, vals_) for src, vals_ in rc_sources if vals_ != {1}]
+    if not once and not loose:
+        odd = sorted({x for c, _ in guard for x in rl.opaque_locals(c)})
+        ctx.need(not odd, f'add_attempt: cannot decide whether the decrement runs once per attempt: the path condition tests {odd}, which are not resolved')
+    ctx.check(bool(once), 'R2', cons + '::once', (f'the decrement is guarded by a ROW_COUNT() test that also holds for {sorted(loose[0][1] - {1})} (0 / 2 = the attempt row already existed)' if loose else
+              f'the decrement is not guarded by ROW_COUNT() = 1 (path condition {[text(c) for c, _ in guard]})') + ': a repeated schedule/start/complete report for the same attempt would take the cores again',
+              r.file, r.line_of(st))
+    # the statement directly before the ROW_COUNT() test is the idempotent insert of this attempt
     ok_prev = False
-    for blk in [a.body] + [b for s in flat if s.kind == 'if' for _, b in s.branches]:
-        for i, s in enumerate(blk):
-            if ifs and s is ifs[0] and i > 0:
-                p = blk[i - 1]
-                ok_prev = p.kind == 'insert' and p.table.lower() == 'attempts' and bool(p.on_dup) and all(text(c).lower() == text(x).lower() for c, x in p.on_dup)
-                if ok_prev:
-                    ins, _, _ = sr.insert_colmap(p)
-                    ok_prev = [text(ins.get(k)).lower() for k in ('batch_id', 'job_id', 'attempt_id', 'instance_name')] == ['in_batch_id', 'in_job_id', 'in_attempt_id', 'in_instance_name']
-    ctx.check(ok_prev, 'R2', f'{r.file}::add_attempt::ROW_COUNT source', 'ROW_COUNT() is not evaluated immediately after `INSERT INTO attempts .. ON DUPLICATE KEY UPDATE <no-op>` for this attempt',
-              r.file, r.line)
-    acq_states = _inst_states(guard, 'cur_instance_state')
+    ins_roles: Dict[str, str] = {}
+    for src in once or [x for x, _ in loose]:
+        p = prev.get(id(src))
+        if p is not None and p.kind == 'insert' and p.table.lower() == 'attempts' and bool(p.on_dup) and all(text(c).lower().split('.')[-1] == text(x).lower().split('.')[-1] and c.kind == 'col' and x.kind == 'col' for c, x in p.on_dup):
+            ins, _, _ = sr.insert_colmap(p)
+            roles = {k: (ins[k].parts[0].lower() if k in ins and sr.is_var(ins[k]) else None) for k in ('batch_id', 'job_id', 'attempt_id', 'instance_name')}
+            if all(x is not None and x in in_params for x in roles.values()) and len(set(roles.values())) == 4 and roles['instance_name'] == inst_param:
+                ok_prev = True
+                ins_roles = roles  # type: ignore[assignment]
+    if rc_sources:
+        ctx.check(ok_prev, 'R2', f'{r.file}::add_attempt::ROW_COUNT source', 'ROW_COUNT() is not evaluated immediately after `INSERT INTO attempts .. ON DUPLICATE KEY UPDATE <no-op>` for this attempt '
+                  '(keyed by the batch / job / attempt / instance parameters)', r.file, r.line)
+    aivars = _inst_state_vars(a)
+    acq_states = _inst_states(guard, set(aivars))
     # callers
     n_call = 0
     for name, rr in sorted(prog.routines.items()):
-        cv = _cores_vars(rr.ast)
-        for s in sf.all_statements(rr.ast.body):
-            if s.kind == 'call' and s.name.lower() == 'add_attempt':
+        for s_ in sf.all_statements(rr.ast.body):
+            if s_.kind == 'call' and s_.name.lower() == 'add_attempt':
                 n_call += 1
-                args = [text(x).lower() for x in s.args]
-                ok = len(args) == 6 and args[:4] == ['in_batch_id', 'in_job_id', 'in_attempt_id', 'in_instance_name'] and args[4] in cv
-                ctx.check(ok, 'R2', f'{rr.file}::{name}::CALL add_attempt', f'add_attempt is called with {args}; the amount must be the cores_mcpu of job (in_batch_id, in_job_id) '
-                          f'(variables bound to it: {sorted(cv)})', rr.file, rr.line_of(s))
+                ctx.need(len(s_.args) == len(aparams), f'{name}: CALL add_attempt passes {len(s_.args)} arguments, the procedure takes {len(aparams)}')
+                ctx.need(bool(ins_roles) and amount_param is not None, f'{name}: the roles of the parameters of add_attempt are not resolved (see R2 on add_attempt)')
+                arg = {role: s_.args[aparams.index(pn)] for role, pn in ins_roles.items()}
+                amt_arg = s_.args[aparams.index(amount_param)]
+                ctx.need(sr.is_var(arg['batch_id']) and sr.is_var(arg['job_id']), f'{name}: CALL add_attempt: the job key arguments are not plain variables')
+                key = (arg['batch_id'].parts[0].lower(), arg['job_id'].parts[0].lower())
+                cv = _cores_vars(rr.ast, key)
+                ctx.need(bool(cv), f'{name}: jobs.cores_mcpu of job ({key[0]}, {key[1]}) is not read into a variable before CALL add_attempt')
+                ok = sr.is_var(amt_arg) and amt_arg.parts[0].lower() in cv
+                ctx.check(ok, 'R2', f'{rr.file}::{name}::CALL add_attempt', f'add_attempt is called with amount `{text(amt_arg)}`; the amount must be the cores_mcpu of job ({key[0]}, {key[1]}) '
+                          f'(variables bound to it: {sorted(cv)})', rr.file, rr.line_of(s_))
     ctx.unit('add_attempt_call_sites', n_call)
 
     # ---- R3 release ---------------------------------------------------------------------------
     rel_states: Dict[str, Set[str]] = {}
     enders = []
     for name, rr in sorted(prog.routines.items()):
-        for s in sf.all_statements(rr.ast.body):
-            if s.kind == 'update' and [t.lower() for t in sf.table_names(s.frm)] == ['attempts'] and any(c.parts[-1].lower() == 'end_time' for c, _ in s.sets if c.kind == 'col'):
-                single = sr.has_eq(s.where, 'attempt_id', 'in_attempt_id') and sr.has_eq(s.where, 'batch_id', 'in_batch_id') and sr.has_eq(s.where, 'job_id', 'in_job_id')
-                enders.append((name, rr, s, single))
+        for s_ in sf.all_statements(rr.ast.body):
+            if s_.kind == 'update' and [t.lower() for t in sf.table_names(s_.frm)] == ['attempts'] and any(c.parts[-1].lower() == 'end_time' for c, _ in s_.sets if c.kind == 'col'):
+                akey = next((b_.parts[0].lower() for c in sf.conjuncts(s_.where) if c.kind == 'bin' and c.op == '=' for a_, b_ in ((c.left, c.right), (c.right, c.left))
+                             if a_.kind == 'col' and a_.parts[-1].lower() == 'attempt_id' and sr.is_var(b_) and b_.parts[0].lower() != 'attempt_id'), None)
+                jkey = cf4.job_key(s_.where)
+                enders.append((name, rr, s_, (jkey + (akey,)) if (jkey is not None and akey is not None) else None))
     ctx.need(len(enders) >= 3, 'fewer than three routines set attempts.end_time')
-    for name, rr, s, single in enders:
+    for name, rr, s_, single in enders:
         cons = f'{rr.file}::{name}::ends attempt'
-        if not single:
-            ctx.check(name == 'deactivate_instance', 'R3', cons, f'{name} sets end_time on many attempts at once without being the deactivation path', rr.file, rr.line_of(s))
+        if single is None:
+            ctx.check(name == 'deactivate_instance', 'R3', cons, f'{name} sets end_time on many attempts at once without being the deactivation path', rr.file, rr.line_of(s_))
             continue
+        rl = cf4.RoutineLocals(rr.ast)
         ws = writes.get(name, [])
-        ctx.check(len(ws) == 1, 'R3', cons + '::releases', f'{name} ends an attempt but contains {len(ws)} release(s) of its cores' + (': the cores stay taken' if not ws else ''), rr.file, rr.line_of(s))
+        ctx.check(len(ws) == 1, 'R3', cons + '::releases', f'{name} ends an attempt but contains {len(ws)} release(s) of its cores' + (': the cores stay taken' if not ws else ''), rr.file, rr.line_of(s_))
         if len(ws) != 1:
             continue
-        st, guard, v = ws[0]
-        cv = _cores_vars(rr.ast)
-        amount_ok = v.kind == 'bin' and v.op == '+' and text(v.left).lower().split('.')[-1] == COL and text(v.right).lower() in cv
-        ctx.check(amount_ok, 'R3', cons + '::amount', f'release writes `{text(v)}`; expected free_cores_mcpu + <cores_mcpu of job (in_batch_id, in_job_id)> ({sorted(cv)})', rr.file, rr.line_of(st))
-        ctx.check(sr.has_eq(st.where, 'name', 'in_instance_name'), 'R3', cons + '::key', f'release is not keyed by in_instance_name: WHERE {text(st.where)}', rr.file, rr.line_of(st))
-        # guard: cur_end_time IS NULL, where cur_end_time <- attempts.end_time FOR UPDATE, read before the UPDATE attempts
+        st, guard0, v = ws[0]
+        guard = rl.expand_guard(guard0)
+        cv = _cores_vars(rr.ast, single[:2])
+        d = sr.dup_increment(COL, v, {})
+        if d is None:
+            ctx.need(_clamped(v), f'{name}: free_cores_mcpu is set to `{text(v)}`, which is not recognised as free_cores_mcpu + <amount>')
+            ctx.bad('R3', cons + '::amount', f'release writes `{text(v)}` (a clamped / conditional value); expected free_cores_mcpu + <cores_mcpu of the job>', rr.file, rr.line_of(st))
+        else:
+            sign, amt = d
+            ctx.need(bool(cv), f'{name}: jobs.cores_mcpu of job {single[:2]} is not read into a variable')
+            ctx.check(sign == 1 and sr.is_var(amt) and amt.parts[0].lower() in cv, 'R3', cons + '::amount',
+                      f'release writes `{text(v)}`; expected free_cores_mcpu + <cores_mcpu of job {single[:2]}> ({sorted(cv)})', rr.file, rr.line_of(st))
+        rparams = {p_[1].lower() for p_ in rr.ast.params}
+        nk = _name_key(st.where)
+        if nk is not None and nk not in rparams:
+            # keyed by a local: fine when it holds attempts.instance_name of this attempt, otherwise not decided
+            from_attempt = any(q.kind == 'select' and q.into and q.frm is not None and [t.lower() for t in sf.table_names(q.frm)] == ['attempts'] and
+                               any(c.kind == 'col' and c.parts[-1].lower() == 'instance_name' and sr.is_var(t_) and t_.parts[0].lower() == nk for (c, _), t_ in zip(q.cols, q.into))
+                               for q in sf.all_statements(rr.ast.body))
+            ctx.need(from_attempt, f'{name}: the release is keyed by `{nk}`, whose relation to the attempt\'s instance is not resolved')
+        ctx.check(nk is not None, 'R3', cons + '::key', f'release is not keyed by the instance name: WHERE {text(st.where)}', rr.file, rr.line_of(st))
+        # guard: <end_time of this attempt> IS NULL, read FOR UPDATE BEFORE the routine's UPDATE attempts
         evars = {}
         for q in sf.all_statements(rr.ast.body):
-            if q.kind == 'select' and q.into and q.frm is not None and [t.lower() for t in sf.table_names(q.frm)] == ['attempts'] and \
-                    sr.has_eq(q.where, 'attempt_id', 'in_attempt_id') and sr.has_eq(q.where, 'batch_id', 'in_batch_id') and sr.has_eq(q.where, 'job_id', 'in_job_id'):
+            if q.kind == 'select' and q.into and q.frm is not None and [t.lower() for t in sf.table_names(q.frm)] == ['attempts'] and cf4.job_key(q.where) == single[:2] and \
+                    sr.has_eq(q.where, 'attempt_id', single[2]):
                 for (c, _), var in zip(q.cols, q.into):
                     if c.kind == 'col' and c.parts[-1].lower() == 'end_time' and sr.is_var(var):
                         evars[var.parts[0].lower()] = q
-        g_ok = [c for c, pol in guard if pol and any(text(x).lower() in [f'({ev_} is null)' for ev_ in evars] for x in sf.conjuncts(c))]
-        ctx.check(bool(g_ok), 'R3', cons + '::once', f'the release is not guarded by `<end_time read from this attempt> IS NULL` (path condition {[text(c) for c, _ in guard]}): '
+        ivars = _inst_state_vars(rr.ast)
+        opaque = sorted({x for c, _ in guard for x in rl.opaque_locals(c)})
+        # may the release run for an attempt whose end_time was already set?
+        again = all(pol in may(c, lambda n: 12345 if (sr.is_var(n) and n.parts[0].lower() in evars) else UNKNOWN) for c, pol in guard)
+        if again:
+            ctx.need(not opaque, f'{name}: cannot decide whether the release runs once per attempt: the path condition tests {opaque}, which are not resolved')
+        ctx.check(not again, 'R3', cons + '::once', f'the release is not guarded by `<end_time read from this attempt> IS NULL` (path condition {[text(c) for c, _ in guard]}): '
                   'a second completion/unschedule report for the same attempt would free the cores twice', rr.file, rr.line_of(st))
         # the release may depend on nothing but the instance state and "this attempt had not ended yet": any further condition
         # (job state, current attempt id, ..) means some ending attempts never give their cores back
         extra = []
         for c, pol in guard:
             for x in sf.conjuncts(c) if pol else [c]:
-                names = {text(n).lower() for n in sf.cols_in(x)}
-                if not names <= ({'cur_instance_state'} | set(evars)):
+                names = {n.parts[0].lower() for n in sf.cols_in(x) if sr.is_var(n)} | {text(n).lower() for n in sf.cols_in(x) if not sr.is_var(n)}
+                if not names <= (set(ivars) | set(evars)):
                     extra.append(('' if pol else 'NOT ') + text(x))
+        if extra:
+            ctx.need(not opaque, f'{name}: the release additionally depends on {extra}; {opaque} are not resolved, so whether every ending attempt gives its cores back is not decided')
         ctx.check(not extra, 'R3', cons + '::unconditional', f'the release additionally requires {extra}: an attempt that ends when that does not hold (e.g. an attempt that is not the job\'s current '
                   'one) keeps its cores until the instance is deactivated', rr.file, rr.line_of(st))
         if evars:
             q = list(evars.values())[0]
-            order_ok = 0 <= _flat_index(rr.ast.body, q) < _flat_index(rr.ast.body, s) and q.lock == 'FOR UPDATE'
+            order_ok = 0 <= _flat_index(rr.ast.body, q) < _flat_index(rr.ast.body, s_) and q.lock == 'FOR UPDATE'
             ctx.check(order_ok, 'R3', cons + '::read before write', 'the attempt\'s end_time is not read FOR UPDATE before this routine overwrites it (the guard would always see the new value, or a stale one)',
                       rr.file, rr.line_of(q))
-        rel_states[name] = _inst_states(guard, 'cur_instance_state')
+        rel_states[name] = _inst_states(guard, set(ivars))
 
     # ---- R4 symmetry of the instance-state guards ---------------------------------------------------
     for name, states in sorted(rel_states.items()):
@@ -686,12 +920,33 @@ def run(ctx: Ctx) -> None:
     ctx.need(ws, 'deactivate_instance no longer writes free_cores_mcpu')
     st, guard, v = ws[0]
     cons = f'{r.file}::deactivate_instance'
-    ctx.check(len(ws) == 1 and text(v).lower().split('.')[-1] == 'cores_mcpu', 'R5', cons + '::reset', f'deactivation sets free cores to `{text(v)}`, expected the instance\'s cores_mcpu', r.file, r.line_of(st))
-    j_ok = any(text(c).lower() in ('(instances.name = instances_free_cores_mcpu.name)', '(instances_free_cores_mcpu.name = instances.name)') for c in sf.conjuncts(st.where)) and \
-        sr.has_eq(st.where, 'instances.name', 'in_instance_name', strip_qual=False)
-    sets_inactive = any(c.parts[-1].lower() == 'state' and text(x) == "'inactive'" for c, x in st.sets if c.kind == 'col')
-    ctx.check(j_ok and sets_inactive, 'R5', cons + '::same statement as state', 'the reset is not done together with state = inactive for the same instance row', r.file, r.line_of(st))
-    ends_all = [s for n_, rr, s, single in enders if n_ == 'deactivate_instance' and sr.has_eq(s.where, 'instance_name', 'in_instance_name')]
+    tabs = [t for t in sf.from_tables(st.frm) if t.kind == 'table']
+    amap = {(t.alias or t.name).lower(): t.name.lower() for t in tabs}
+
+    def tcol(n: N) -> Optional[Tuple[Optional[str], str]]:
+        """(table or None when unqualified, column) with aliases resolved."""
+        if n.kind != 'col':
+            return None
+        return (amap.get(n.parts[-2].lower(), n.parts[-2].lower()) if len(n.parts) > 1 else None, n.parts[-1].lower())
+    vv = tcol(v)
+    reset_ok = len(ws) == 1 and vv is not None and vv[1] == 'cores_mcpu' and vv[0] in (None, 'instances')
+    ctx.check(reset_ok, 'R5', cons + '::reset', f'deactivation sets free cores to `{text(v)}`, expected the instance\'s cores_mcpu', r.file, r.line_of(st))
+    conds = list(sf.conjuncts(st.where))
+    for j in (st.frm.joins if st.frm is not None and st.frm.kind == 'from' else []):
+        if getattr(j, 'on', None) is not None:
+            conds += sf.conjuncts(j.on)
+        using = getattr(j, 'using', None)
+        if using and 'name' in [str(u).lower() for u in using]:
+            conds.append(N('bin', op='=', left=N('col', parts=['instances', 'name']), right=N('col', parts=[TBL, 'name'])))
+    joined = any(c.kind == 'bin' and c.op == '=' and {tcol(c.left), tcol(c.right)} == {('instances', 'name'), (TBL, 'name')} for c in conds)
+    inst_key = any(c.kind == 'bin' and c.op == '=' and ((tcol(a_) == ('instances', 'name') and sr.is_var(b_)) or (tcol(a_) == (TBL, 'name') and sr.is_var(b_) and joined))
+                   for c in conds for a_, b_ in ((c.left, c.right), (c.right, c.left)))
+    sets_inactive = any(c.kind == 'col' and c.parts[-1].lower() == 'state' and x.kind == 'lit' and x.value == 'inactive' and (tcol(c)[0] in (None, 'instances')) for c, x in st.sets)
+    ctx.check(joined and inst_key and sets_inactive, 'R5', cons + '::same statement as state', 'the reset is not done together with state = inactive for the same instance row', r.file, r.line_of(st))
+    dparams = {p_[1].lower() for p_ in r.ast.params}
+    ends_all = [s_ for n_, rr, s_, single in enders if n_ == 'deactivate_instance' and any(
+        c.kind == 'bin' and c.op == '=' and a_.kind == 'col' and a_.parts[-1].lower() == 'instance_name' and sr.is_var(b_) and b_.parts[0].lower() in dparams
+        for c in sf.conjuncts(s_.where) for a_, b_ in ((c.left, c.right), (c.right, c.left)))]
     ctx.check(len(ends_all) == 1, 'R5', cons + '::ends all attempts', 'deactivation does not set end_time on every attempt of the instance', r.file, r.line)
 
     # ---- R6 python mirror -----------------------------------------------------------------------------
@@ -745,70 +1000,127 @@ def run(ctx: Ctx) -> None:
             m2, il = inline.inline_functions(_hoist_test_calls(m, e.fn.name, helpers), e.fn.name, exclude=tuple(n_ for n_ in toplevel if n_ not in helpers))
             fn = m2.func(e.fn.name)
             g = pf.cfg(fn)
-            calls2 = [c for c in ast.walk(fn) if isinstance(c, ast.Call) and isinstance(c.func, ast.Attribute) and c.func.attr in sf.EXEC_METHODS and c.args
-                      and (pf.const_str(c.args[0]) or '').strip().upper().startswith(f'CALL {proc.upper()}(')]
-            ctx.need(len(calls2) == 1, f'{cons}: CALL statement not found again after inlining')
-            call2 = calls2[0]
+            call2, rvn = cf4.result_local(m2, fn, proc)   # (AnalysisError -> declined) the result row may be bound to any local name
             cn = g.node_of(call2)
-            ctx.need(len(cn) == 1 and isinstance(cn[0].ast, ast.Assign) and isinstance(cn[0].ast.targets[0], ast.Name), f'{cons}: the procedure result is not assigned to a local')
-            rvn = cn[0].ast.targets[0].id
+            ctx.need(len(cn) == 1, f'{cons}: CFG node of the CALL not found')
             want = f"{rvn}['delta_cores_mcpu']"
+
+            def _delta_expr(x: ast.AST) -> bool:
+                x = pf.expand_locals(fn, x)
+                if isinstance(x, ast.Call) and isinstance(x.func, ast.Attribute) and x.func.attr == 'get' and x.args and not x.keywords:
+                    return pf.nsrc(x.func.value) == rvn and pf.const_str(x.args[0]) == 'delta_cores_mcpu' and (len(x.args) == 1 or (isinstance(x.args[1], ast.Constant) and x.args[1].value in (0, None)))
+                return pf.nsrc(x) == want
 
             def _is_adj(c: ast.Call, strict: bool = True) -> bool:
                 if not (isinstance(c.func, ast.Attribute) and c.func.attr == 'adjust_free_cores_in_memory'):
                     return False
-                return not strict or (len(c.args) == 1 and not c.keywords and pf.nsrc(pf.expand_locals(fn, c.args[0])) == want)
+                return not strict or (len(c.args) == 1 and not c.keywords and _delta_expr(c.args[0]))
             adj = g.find(lambda n: any(_is_adj(c) for c in pf.node_calls(n)))
             anyadj = g.find(lambda n: any(_is_adj(c, False) for c in pf.node_calls(n)))
             hidden = [c for c in ast.walk(fn) if isinstance(c, ast.Call) and isinstance(c.func, ast.Name) and c.func.id in helpers]
             if hidden:
                 declined6.append(f'{cons}: the in-memory adjustment is made by helper `{hidden[0].func.id}` called in a form that cannot be inlined (skipped: {il.skipped})')
                 continue
+            # names whose value derives from the result row
+            tainted = {rvn}
+            grew = True
+            while grew:
+                grew = False
+                for nm_, vs_ in pf.assignments(fn).items():
+                    if nm_ not in tainted and any(not isinstance(v_, ast.arg) and (pf.names_in(v_) & tainted) for v_ in vs_):
+                        tainted.add(nm_)
+                        grew = True
+            if not anyadj:
+                # the row (or its delta) handed to other code: the adjustment may be made there (a method extracted onto another object) - not seen through
+                escapes = [c for c in ast.walk(fn) if isinstance(c, ast.Call) and c is not call2 and not (isinstance(c.func, ast.Attribute) and isinstance(c.func.value, ast.Name) and c.func.value.id in ('log', 'logging', 'logger'))
+                           and any((isinstance(a_, ast.Name) and a_.id in tainted) or _delta_expr(a_) for a_ in list(c.args) + [k.value for k in c.keywords])]
+                if escapes:
+                    declined6.append(f'{cons}: no in-memory adjustment in the caller, but the procedure result is passed to `{pf.nsrc(escapes[0].func)}` (line {escapes[0].lineno}), which is not seen through')
+                    continue
+            odd = [n for n in anyadj if n not in adj]
+            odd_tainted = [n for n in odd if any(pf.names_in(c.args[0] if c.args else c) & tainted for c in pf.node_calls(n) if _is_adj(c, False))]
+            if odd_tainted or (len(adj) > 1 and not odd):
+                twice = any(b_.id in g.reachable_from(a_, edge_ok=lambda x, y, lab: lab != 'exc') for a_ in adj for b_ in adj if a_ is not b_)
+                if odd_tainted or not twice:
+                    declined6.append(f'{cons}: {len(anyadj)} in-memory adjustments whose amounts / mutual exclusion are not resolved (line {(odd_tainted or adj)[0].lineno})')
+                    continue
             ctx.check(len(adj) == 1 and len(anyadj) == 1, 'R6', cons + '::applies delta', f'the caller applies {want} to the in-memory free cores {len(adj)} time(s) '
                       f'({len(anyadj)} in-memory adjustment(s) in all), expected exactly once', m.path, e.lineno)
             if len(adj) == 1:
-                # no return/raise that tests rc may come before the adjustment
-                early = g.find(lambda n: n.kind == 'test' and f"{rvn}['rc']" in pf.nsrc(n.ast))
-                dom = g.dominators()
-                bad_early = [t for t in early if t.id in dom.get(adj[0].id, set())]
-                ctx.check(not bad_early, 'R6', cons + '::before rc', 'the in-memory adjustment happens only after the rc test: a refused report that still changed the database counter is not mirrored '
-                          f'(e.g. {proc} returns rc = 1 with delta_cores_mcpu != 0 when the attempt was recorded but the job could not change state: the database row moved, the in-memory copy does not)',
-                          m.path, adj[0].lineno)
-                # the instance whose in-memory counter is adjusted is the instance named in the CALL (the database adjusted THAT row)
                 call = [c for c in pf.node_calls(adj[0]) if _is_adj(c)][0]
-                recv = pf.nsrc(call.func.value)
+                # a refused report must still be mirrored: no normal path from the CALL to the end of the function may skip the adjustment because of rc.
+                # Tests on the delta itself, on the instance object and on the instance name are the legitimate reasons to skip it.
+                root = call.func.value
+                while isinstance(root, (ast.Attribute, ast.Subscript)):
+                    root = root.value
+                legit = ({root.id} if isinstance(root, ast.Name) else set())
                 params = [p_[1].lower() for p_ in prog.routine(proc).ast.params]
                 ipos = [i for i, p_ in enumerate(params) if p_ == 'in_instance_name']
                 elts = sr.args_tuple(fn, call2.args[1]) if len(call2.args) > 1 else None
                 ctx.need(len(ipos) == 1 and elts is not None and len(elts) == len(params), f'{cons}: cannot bind the CALL arguments to the procedure parameters')
-                arg = elts[ipos[0]]
-                same = pf.nsrc(arg) == f'{recv}.name'
-                if not same and isinstance(arg, ast.Name):
-                    defs = [d for d in pf.assignments(fn).get(recv, []) if isinstance(d, ast.expr) and not (isinstance(d, ast.Constant) and d.value is None)]
-                    same = bool(defs) and all(isinstance(d, ast.Call) and pf.dotted(d.func) is not None and pf.dotted(d.func).endswith('.get_instance')
-                                              and [pf.nsrc(a) for a in d.args] == [arg.id] for d in defs)
-                other = isinstance(arg, ast.Attribute) and arg.attr == 'name' and pf.nsrc(arg.value) != recv
-                ctx.need(same or other or isinstance(arg, ast.Name), f'{cons}: instance argument `{pf.nsrc(arg)}` not recognised')
-                ctx.check(same, 'R6', cons + '::same instance', f'the procedure adjusts the database counter of instance `{pf.nsrc(arg)}` but the in-memory adjustment is applied to `{recv}`, '
-                          'which is not (provably) that instance: one instance\'s recorded free cores drift from its attempts', m.path, adj[0].lineno)
+                legit |= pf.names_in(elts[ipos[0]])   # the instance name handed to the procedure (and the object it is taken from)
+                asg_ = pf.assignments(fn)
+                grew = True
+                while grew:   # aliases: `instance = target` makes a test of `target` a test of the instance
+                    grew = False
+                    for nm_, vs_ in asg_.items():
+                        for v_ in vs_:
+                            if isinstance(v_, ast.Name) and ((nm_ in legit) != (v_.id in legit)):
+                                legit |= {nm_, v_.id}
+                                grew = True
+
+                def _explains(n) -> bool:
+                    if n in adj:
+                        return True
+                    if n.kind != 'test' or n.ast is None:
+                        return False
+                    x = pf.expand_locals(fn, n.ast)
+                    return bool((pf.names_in(x) | pf.names_in(n.ast)) & legit) or any(_delta_expr(s_) for s_ in ast.walk(x)) or any(_delta_expr(s_) for s_ in ast.walk(n.ast))
+                skip = g.path_avoiding(cn[0], lambda n: n is g.exit, _explains, edge_ok=lambda a_, b_, lab: lab != 'exc')
+                rc_tests = [n for n in (skip or []) if n.kind == 'test' and n.ast is not None and any(
+                    (isinstance(s_, ast.Subscript) and isinstance(s_.value, ast.Name) and s_.value.id == rvn and pf.const_str(s_.slice) == 'rc') for s_ in ast.walk(pf.expand_locals(fn, n.ast)))]
+                if skip is not None and not rc_tests:
+                    via = [x for x in skip if x.kind in ('test', 'return')][-3:]
+                    declined6.append(f'{cons}: a path from the CALL to the end of the function (' + ', '.join(f'line {x.lineno} `{pf.nsrc(x.ast)[:40]}`' for x in via) +
+                                     ') skips the in-memory adjustment for a reason that is neither a test of rc, of the delta nor of the instance: not decided')
+                    continue
+                ctx.check(skip is None, 'R6', cons + '::before rc', 'the in-memory adjustment happens only after the rc test' +
+                          (f' (line {rc_tests[0].lineno} `{pf.nsrc(rc_tests[0].ast)[:50]}` leaves the function first)' if rc_tests else '') + ': a refused report that still changed the database counter is not mirrored '
+                          f'(e.g. {proc} returns rc = 1 with delta_cores_mcpu != 0 when the attempt was recorded but the job could not change state: the database row moved, the in-memory copy does not)',
+                          m.path, adj[0].lineno)
+                # the instance whose in-memory counter is adjusted is the instance named in the CALL (the database adjusted THAT row)
+                recv = pf.nsrc(call.func.value)
+                verdict, why = _same_instance(fn, call.func.value, elts[ipos[0]])
+                ctx.need(verdict != 'unknown', f'{cons}: cannot decide whether the in-memory adjustment is applied to the instance named in the CALL: {why}')
+                ctx.check(verdict == 'same', 'R6', cons + '::same instance', f'the procedure adjusts the database counter of instance `{pf.nsrc(elts[ipos[0]])}` but the in-memory adjustment is applied to `{recv}`, '
+                          f'{why}: one instance\'s recorded free cores drift from its attempts', m.path, adj[0].lineno)
     ctx.need(not declined6, ' | '.join(declined6))
     ctx.need(n6 >= 5, f'only {n6} call sites of procedures returning delta_cores_mcpu found in driver/job.py')
     # optimistic decrement in the pool scheduler is undone on failure
     pm = pf.load('batch/batch/driver/instance_collection/pool.py')
     dec = [n for n in ast.walk(pm.tree) if isinstance(n, ast.Call) and pf.dotted(n.func) is not None and pf.dotted(n.func).endswith('.adjust_free_cores_in_memory')]
-    neg = [c for c in dec if pf.nsrc(c.args[0]) == "-record['cores_mcpu']"]
-    pos = [c for c in dec if pf.nsrc(c.args[0]) == "record['cores_mcpu']"]
+    def _job_cores(x: ast.AST, where: ast.AST) -> bool:
+        """<row>['cores_mcpu'] of the job record being scheduled (whatever the row variable is called; a local holding it is followed)."""
+        f_ = pm.enclosing_func(where)
+        x = pf.expand_locals(f_, x) if f_ is not None else x
+        return isinstance(x, ast.Subscript) and isinstance(x.value, ast.Name) and pf.const_str(x.slice) == 'cores_mcpu'
+    one = [c for c in dec if len(c.args) == 1 and not c.keywords]
+    neg = [c for c in one if isinstance(c.args[0], ast.UnaryOp) and isinstance(c.args[0].op, ast.USub) and _job_cores(c.args[0].operand, c)]
+    pos = [c for c in one if _job_cores(c.args[0], c)]
     ctx.need(len(neg) == 1, 'pool.py: optimistic decrement not found')
-    in_handler = False
-    for n in ast.walk(pm.tree):
-        if isinstance(n, ast.ExceptHandler) and any(c in list(ast.walk(n)) for c in pos):
-            tr = pm.parents().get(n)
-            in_handler = isinstance(tr, ast.Try) and any(isinstance(x, ast.Call) and pf.dotted(x.func) == 'schedule_job' for b in tr.body for x in ast.walk(b))
-    ctx.check(len(pos) == 1 and in_handler, 'R6', f'{pm.rel}::schedule_loop_body::optimistic decrement undone',
-              'the in-memory cores taken before schedule_job are not given back in the except handler around schedule_job', pm.path, neg[0].lineno)
+    tries = [tr for tr in ast.walk(pm.tree) if isinstance(tr, ast.Try) and any(isinstance(x, ast.Call) and pf.dotted(x.func) == 'schedule_job' for b in tr.body for x in ast.walk(b))]
+    sched_calls = [x for x in ast.walk(pm.tree) if isinstance(x, ast.Call) and pf.dotted(x.func) == 'schedule_job']
+    ctx.need(bool(sched_calls), 'pool.py: call of schedule_job not found')
+    in_handler = [c for tr in tries for h in tr.handlers for c in ast.walk(h) if c in dec]
+    # an adjustment in the handler whose amount is not recognised as the job's cores is not judged
+    ctx.need(all(c in pos for c in in_handler), f'pool.py: the except handler around schedule_job adjusts the in-memory free cores by `{pf.nsrc(in_handler[0].args[0]) if in_handler and in_handler[0].args else "?"}`, '
+             'which is not recognised as the cores of the job record')
+    ctx.check(len(in_handler) == 1, 'R6', f'{pm.rel}::schedule_loop_body::optimistic decrement undone',
+              ('schedule_job is not called inside a try statement: ' if not tries else '') + f'the in-memory cores taken before schedule_job are given back {len(in_handler)} time(s) in the except handler(s) around schedule_job, expected once',
+              pm.path, neg[0].lineno)
 
     # ---- R8 closed world of the in-memory mirror ----------------------------------------------------------
-    r8(ctx, m, pm, neg, pos, procs_with_delta)
+    r8(ctx, m, pm, neg, in_handler, procs_with_delta)
 
     # ---- R9 settlement of the scheduler's in-memory reservation -----------------------------------------------
     declined9: Optional[str] = None
